@@ -38,7 +38,12 @@ impl crate::SyncHttpClient for ureq::Agent {
         } else {
             req.call()
         }
-        .map_err(Box::new)?;
+        // `ureq` reports 4xx and 5xx statuses as `Error::Status`. These are ordinary HTTP
+        // responses (e.g., `400 invalid_grant`) that the caller must receive as such.
+        .or_else(|err| match err {
+            ureq::Error::Status(_, response) => Ok(response),
+            err => Err(Box::new(err)),
+        })?;
 
         let mut builder = http::Response::builder()
             .status(StatusCode::from_u16(response.status()).map_err(http::Error::from)?);
